@@ -449,3 +449,86 @@ fn c17_encode_every_metric_type_no_panic() {
     assert!(r2.is_err() && w2.len == 0, "C17.encode: a family without samples must be refused before anything is written");
     core::mem::forget((fams, r, empties, r2));
 }
+
+fn eq_bytes(a: &[u8], b: &[u8]) -> bool {
+    if a.len() != b.len() {
+        return false;
+    }
+    let mut i = 0;
+    while i < a.len() {
+        if a[i] != b[i] {
+            return false;
+        }
+        i += 1;
+    }
+    true
+}
+
+//@ id: c04_entry_points_agree_and_append
+//@ prop: C04
+//@ tier: quick
+//@ strength: bounded(one concrete counter family; output buffers pre-filled with one line)
+//@ fn: encoder::text::TextEncoder::encode, encoder::text::TextEncoder::encode_utf8, encoder::text::TextEncoder::encode_to_string, encoder::text::StringBuf::write_all
+//@ obligation: encode (io::Write), encode_utf8 (String) and encode_to_string produce the same bytes for the same families, and the first two only APPEND to what their output already holds
+#[kani::proof]
+#[kani::unwind(70)]
+#[kani::stub(alloc::fmt::format, stub_format)]
+fn c04_entry_points_agree_and_append() {
+    let fams = [counter_family("n", "h", MetricType::COUNTER, 2.0)];
+    let enc = TextEncoder::new();
+    let body: &[u8] = b"# HELP n h\n# TYPE n counter\nn <f:4000000000000000>\n";
+    let mut s = String::with_capacity(96);
+    s.push_str("x\n");
+    assert!(enc.encode_utf8(&fams, &mut s).is_ok(), "C04.encode_utf8: error");
+    assert!(s.len() == 2 + body.len() && &s.as_bytes()[..2] == b"x\n" && eq_bytes(&s.as_bytes()[2..], body), "C04.encode_utf8: must append exactly the encoding to the existing buffer");
+    let mut v: Vec<u8> = Vec::with_capacity(96);
+    v.push(b'y');
+    assert!(enc.encode(&fams, &mut v).is_ok(), "C04.encode: error");
+    assert!(v.len() == 1 + body.len() && v[0] == b'y' && eq_bytes(&v[1..], body), "C04.encode: must append exactly the same bytes as encode_utf8");
+    let t = enc.encode_to_string(&fams);
+    match &t {
+        Ok(t) => assert!(eq_bytes(t.as_bytes(), body), "C04.encode_to_string: must produce the same bytes"),
+        Err(_) => assert!(false, "C04.encode_to_string: error"),
+    }
+    core::mem::forget((fams, s, v, t));
+}
+
+//@ id: c04_encode_summary_family
+//@ prop: C04
+//@ tier: quick
+//@ strength: bounded(one concrete summary family: one quantile, count 3, sum 4.5, one label)
+//@ fn: encoder::text::TextEncoder::encode_impl
+//@ obligation: a summary renders one line per quantile carrying the sample's labels plus quantile="...", then _sum and _count with the sample's labels
+#[kani::proof]
+#[kani::unwind(150)]
+#[kani::stub(alloc::fmt::format, stub_format)]
+fn c04_encode_summary_family() {
+    let mut q = Quantile::default();
+    q.set_quantile(0.5);
+    q.set_value(3.0);
+    let mut qs = Vec::with_capacity(1);
+    qs.push(q);
+    let mut s = Summary::default();
+    s.set_sample_count(3);
+    s.set_sample_sum(4.5);
+    s.set_quantile(qs);
+    let mut lv = Vec::with_capacity(1);
+    lv.push(lp("a", "x"));
+    let mut m = Metric::from_label(lv);
+    m.set_summary(s);
+    let mut mf = MetricFamily::default();
+    mf.set_name("s".to_owned());
+    mf.set_field_type(MetricType::SUMMARY);
+    let mut ms = Vec::with_capacity(1);
+    ms.push(m);
+    mf.set_metric(ms);
+    let fams = [mf];
+    let mut w = RecW::new();
+    let r = TextEncoder::new().encode_impl(&fams, &mut w);
+    assert!(r.is_ok(), "C04.encode: error on a well-formed summary family");
+    assert!(
+        w.is(b"# TYPE s summary\ns{a=\"x\",quantile=\"<f:3fe0000000000000>\"} <f:4008000000000000>\ns_sum{a=\"x\"} <f:4012000000000000>\ns_count{a=\"x\"} <f:4008000000000000>\n"),
+        "C04.encode: summary must render as one line per quantile (own labels + quantile), then _sum and _count"
+    );
+    core::mem::forget((fams, r));
+}
